@@ -1079,6 +1079,18 @@ def judge_query(spec, text, env, out):
             out.append({"signature": ["C13", root_cls(qspec) + "Builder", where, "alias-missing"],
                         "what": "sub-query aliased %s is rendered without its alias in %r" % (a, seg[-60:])})
 
+    def below(it, seg):
+        """sub-queries inside a GROUP BY / ORDER BY element: the element itself, or arguments of a function call"""
+        if it[0] == "sub":
+            sub(it[1], seg)
+        elif it[0] == "func":
+            o_, c_ = paren_group(seg)
+            args = split_top(seg[o_ + 1:c_])
+            if len(args) != len(it[2]):
+                raise Unreadable("function %s has %d arguments in %r" % (it[1], len(args), seg[:60]))
+            for a_, s_ in zip(it[2], args):
+                below(a_, s_)
+
     # select list
     sel_parts = split_top(segs["select"][0])
     items = spec.get("selects", [])
@@ -1129,6 +1141,8 @@ def judge_query(spec, text, env, out):
         for it, seg in zip(spec["groupby"], parts):
             if it[0] == "t":
                 out += judge_element(it[1], seg, "groupby", env["conv"], memo, names, here_group, defs)
+            else:
+                below(it, seg)
     if spec.get("orderby"):
         parts = split_top(segs["orderby"][0])
         if len(parts) != len(spec["orderby"]):
@@ -1138,6 +1152,8 @@ def judge_query(spec, text, env, out):
                 seg = seg[:-(len(d) + 1)]
             if it[0] == "t":
                 out += judge_element(it[1], seg, "orderby", env["conv"], memo, names, True, defs)
+            else:
+                below(it, seg)
 
 
 def oracle_query(case, text):
@@ -1565,6 +1581,13 @@ class NG:
 
         def element():
             x = r.random()
+            if depth < self.max_depth and x < 0.14:
+                # a scalar sub-query of another class WITH ITS OWN aliased GROUP BY as the element, directly or as a function argument
+                sq = self.select(self.inner_cls(cls), depth + 1, nsel=1, tail=False)
+                it = [i for i in sq["selects"] if i[0] == "t"]
+                if it and not sq.get("groupby"):
+                    sq["groupby"] = [it[0]]
+                return ["sub", sq] if r.random() < 0.5 else ["func", r.choice(["COALESCE", "F"]), [["sub", sq], ["t", I(0)]], None]
             if terms and x < 0.55:
                 return r.choice(terms)
             if x < 0.75:
@@ -1651,6 +1674,8 @@ def _map_q_aliases(q, f):
             return ["in", mt(i[1]), _map_q_aliases(i[2], f), i[3]]
         if k == "exists":
             return ["exists", _map_q_aliases(i[1], f), i[2]]
+        if k == "func":
+            return ["func", i[1], [item(a) for a in i[2]], i[3]]
         return i
     if q["k"] == "set":
         q["base"] = _map_q_aliases(q["base"], f)
@@ -1927,6 +1952,14 @@ def nested_grid(outers=None, inners=None):
                                            "joins": [["inner", ["q", inner(ic, "sub1")], ["on", ["t", ["basic", "eq", F("a"), F("b"), None]]]]],
                                            "selects": [["t", F("c", "zqC")], ["sub", inner(ic, "sa", nsel=1)]],
                                            "where": ["in", F("a"), inner(ic, None, nsel=1), False]}})
+        for ic in inners:
+            g1 = inner(ic, None, nsel=1)
+            g1.pop("orderby")
+            for el in (["sub", g1], ["func", "COALESCE", [["sub", g1], ["t", I(0)]], None]):
+                out.append({"kind": "q", "q": {"k": "sel", "cls": oc, "from": [["t", ["u", [], None]]], "joins": [],
+                                               "selects": [["t", F("c", "zqC")]], "orderby": [[el, "desc"]]}})
+                out.append({"kind": "q", "q": {"k": "sel", "cls": oc, "from": [["t", ["u", [], None]]], "joins": [],
+                                               "selects": [["t", F("c", "zqC")]], "groupby": [el], "orderby": [[["t", F("c", "zqC")], None], [el, None]]}})
         other = ["func", "UPPER", [F("b")], "zqC"]
         b1 = {"k": "sel", "cls": oc, "from": [["t", ["t", [], None]]], "joins": [], "selects": [["t", x], ["t", F("n")]]}
         b2 = {"k": "sel", "cls": oc, "from": [["t", ["u", [], None]]], "joins": [], "selects": [["t", other], ["t", F("n")]]}
@@ -2055,6 +2088,15 @@ def _q_elements(q, depth=0):
             out += _q_elements(w[1], depth + 1)
     out += [("groupby" + tag, g[1]) for g in q.get("groupby", []) if g[0] == "t"]
     out += [("orderby" + tag, o[1]) for o, _ in q.get("orderby", []) if o[0] == "t"]
+
+    def below(it):
+        if it[0] == "sub":
+            return _q_elements(it[1], depth + 1)
+        if it[0] == "func":
+            return [e for a in it[2] for e in below(a)]
+        return []
+    for it in list(q.get("groupby", [])) + [o for o, _ in q.get("orderby", [])]:
+        out += below(it)
     return out
 
 
